@@ -1,6 +1,9 @@
 (* Glue between generated C18 case files and the models (Calendar, TimeFmt, Duration). *)
 From Coq Require Import List NArith ZArith Bool String.
 From RareV Require Import Base.Hex Base.Num Gen.GenTime Model.Calendar Model.TimeFmt Model.Duration Model.C18Check Corr.Run.
+
+(* the RFC822Z window of Proofs/TimeFmtRfc822z.v (local years 1969..2068) *)
+Definition in_822 (t off : Z) : bool := ((-31536000 <=? t + off) && (t + off <? 3124224000))%Z.
 Import ListNotations.
 
 Inductive inp :=
@@ -67,7 +70,10 @@ Definition check (i : inp) (o : bytes) : bool :=
       (* C18_roundtrip_kf: the instant comes back *)
       match atoi arg with
       | Some t => if existsb (bytes_eqb (upper fmt)) rt_names && in_range t off && rt_offset off
-                  then bytes_eqb o (itoa t) else true
+                  then bytes_eqb o (itoa t)
+                  else if bytes_eqb (upper fmt) (s2b "RFC822Z") && in_822 t off && rt_offset off
+                  then bytes_eqb o (itoa (t - t mod 60))   (* C18_roundtrip_kf_rfc822z *)
+                  else true
       | None => true
       end
   | IReformat str fmt names lo fo fmt2 off abbr =>
